@@ -1466,3 +1466,150 @@ func ruleSoftBreak(r *Run) {
 	}
 	_ = p
 }
+
+// ---------------------------------------------------------------------------
+// R-ROUND-NEAREST (C12): every setter is read-all / change-one / write-all, so the mm→twips
+// conversion is applied again and again to values that came from twips.  Rounding to nearest makes
+// that idempotent; truncation (a bare float→int conversion) loses a twip whenever twips→mm→twips
+// lands just below the integer, so a call that does not name a margin still changes it.
+// ---------------------------------------------------------------------------
+
+func ruleRoundNearest(r *Run) {
+	p := r.P
+	setFn := r.mustFunc(pkgDoc, "(*Document).SetPageSettings")
+	if setFn == nil {
+		return
+	}
+	sl := newSlicer(p)
+	sl.dataOnly = true
+	n := 0
+	allInstrs(setFn, func(in ssa.Instruction) {
+		st, ok := in.(*ssa.Store)
+		if !ok {
+			return
+		}
+		fv, _ := fieldOfAddr(st.Addr)
+		if fv == nil {
+			return
+		}
+		o := fieldOwner(p, fv)
+		if o == nil || (o.Obj().Name() != "PageSizeXML" && o.Obj().Name() != "PageMargin") {
+			return
+		}
+		res := sl.Slice(st.Val)
+		if !res.callsTo("mmToTwips") {
+			return
+		}
+		n++
+		bad := ""
+		for v := range res.Vals {
+			cv, ok := v.(*ssa.Convert)
+			if !ok {
+				continue
+			}
+			from, ok1 := cv.X.Type().Underlying().(*types.Basic)
+			to, ok2 := cv.Type().Underlying().(*types.Basic)
+			if !ok1 || !ok2 || from.Info()&types.IsFloat == 0 || to.Info()&types.IsInteger == 0 {
+				continue
+			}
+			rounded := false
+			switch x := cv.X.(type) {
+			case *ssa.Call:
+				cn := calleeName(x)
+				if cn == "math.Round" || cn == "math.RoundToEven" {
+					rounded = true
+				}
+				if cn == "math.Floor" {
+					if len(x.Call.Args) == 1 {
+						if bo, ok := x.Call.Args[0].(*ssa.BinOp); ok && bo.Op == token.ADD {
+							rounded = true
+						}
+					}
+				}
+			case *ssa.BinOp:
+				if x.Op == token.ADD {
+					if c, ok := x.Y.(*ssa.Const); ok && c.Value != nil && c.Value.String() == "0.5" {
+						rounded = true
+					}
+				}
+			}
+			if !rounded {
+				bad = p.pos(cv.Pos())
+			}
+		}
+		r.Check("round-nearest", o.Obj().Name()+"."+fv.Name(), st.Pos(), bad == "",
+			fmt.Sprintf("%s.%s is written from millimetres%s", o.Obj().Name(), fv.Name(), map[bool]string{true: " with rounding to the nearest twip (or formatted with %.0f)", false: " through a truncating float→int conversion (" + bad + "): reading the settings and writing them back is no longer the identity, so setters that do not name this attribute decrement it"}[bad == ""]))
+	})
+	r.Min("mm_to_twips_stores", n, 9)
+}
+
+// ---------------------------------------------------------------------------
+// R-TOC-CONFIG-FLOW (C15): a call that is given a TOC configuration must collect headings up to
+// THAT configuration's level.  Functions that collect with a level not derived from their own
+// parameters (UpdateTOC: DefaultTOCConfig) are fine by themselves, but a function that takes a
+// *TOCConfig must not reach them: the requested level would be dropped on that path.
+// ---------------------------------------------------------------------------
+
+func ruleTOCConfigFlow(r *Run) {
+	p := r.P
+	collect := r.mustFunc(pkgDoc, "(*Document).collectHeadings")
+	if collect == nil {
+		return
+	}
+	isCfg := func(t types.Type) bool { return typeIs(t, pkgDoc, "TOCConfig") }
+	// functions that collect with a level that does not come from a parameter of theirs
+	defaultCollectors := map[*ssa.Function]token.Pos{}
+	nCalls := 0
+	for _, fn := range p.ModFuncs() {
+		if fn.Pkg == nil || fn.Pkg.Pkg.Path() != pkgDoc {
+			continue
+		}
+		allInstrs(fn, func(in ssa.Instruction) {
+			c, ok := in.(ssa.CallInstruction)
+			if !ok || staticCallee(c) != collect {
+				return
+			}
+			nCalls++
+			args := c.Common().Args
+			lvl := args[len(args)-1]
+			fromParam := false
+			for rt := range deepRoots(p, lvl) {
+				if par, ok := rt.(*ssa.Parameter); ok && par.Parent() == topLevel(fn) && par != topLevel(fn).Params[0] {
+					fromParam = true
+				}
+			}
+			if !fromParam {
+				defaultCollectors[topLevel(fn)] = c.Pos()
+			}
+		})
+	}
+	r.Min("heading_collection_calls", nCalls, 2)
+	n := 0
+	for _, fn := range p.exportedAPI(pkgDoc) {
+		hasCfg := false
+		for _, par := range fn.Params {
+			if isCfg(par.Type()) {
+				hasCfg = true
+			}
+		}
+		if !hasCfg {
+			continue
+		}
+		n++
+		bad := ""
+		if pos, ok := defaultCollectors[fn]; ok {
+			bad = fmt.Sprintf("it collects headings itself with a level that is not taken from its arguments (%s)", p.pos(pos))
+		}
+		for g := range p.staticReach(fn) {
+			if g == fn {
+				continue
+			}
+			if pos, ok := defaultCollectors[g]; ok {
+				bad = fmt.Sprintf("it can call %s, which collects headings with its own default level (%s)", shortName(g), p.pos(pos))
+			}
+		}
+		r.Check("toc-config-flow", shortName(fn), fn.Pos(), bad == "",
+			fmt.Sprintf("%s takes a TOC configuration%s", shortName(fn), map[bool]string{true: "; every heading collection it performs uses a level derived from its arguments", false: " but " + bad + ": the table of contents then lists headings up to a level the caller did not ask for"}[bad == ""]))
+	}
+	r.Min("api_functions_taking_toc_config", n, 2)
+}
